@@ -225,7 +225,7 @@ func (c *connector) checkHeaders(resp *http.Response) error {
 	if resp.StatusCode != http.StatusSwitchingProtocols {
 		return fmt.Errorf("unexpected status code: %d", resp.StatusCode)
 	}
-	if !internal.HttpHeaderContains(resp.Header.Get(internal.Connection.Key), internal.Connection.Val) {
+	if !internal.HttpHeaderContainsToken(resp.Header.Values(internal.Connection.Key), internal.Connection.Val) {
 		return fmt.Errorf("missing %s header", internal.Connection.Key)
 	}
 	if !strings.EqualFold(resp.Header.Get(internal.Upgrade.Key), internal.Upgrade.Val) {
